@@ -308,6 +308,7 @@ func runC11(c *Ctx) {
 	}
 	c11Guards(c, byPath)
 	c11SoleProducer(c)
+	fsmResponseChecked(c, "R3")
 	checkUnlocks(c, "R5", []string{"balloon", "balloon/hyper", "consensus", "api/apihttp", "api/mgmthttp"})
 	hyperLeafListDiscipline(c, "R6")
 	lruDiscipline(c, "R7")
@@ -382,10 +383,21 @@ func c11Guards(c *Ctx, byPath map[string]*ssa.Function) {
 			if cc.IsInvoke() {
 				name = cc.Method.Name()
 			} else if f := cc.StaticCallee(); f != nil {
-				name = f.Name()
+				name = canonFuncName(f)
 			}
 			if fn == rAB {
-				return name == "propose"
+				// handing the command to raft, directly or through a helper of the node
+				isApply := func(k *ssa.CallCommon) bool {
+					f := k.StaticCallee()
+					return f != nil && f.Name() == "Apply" && f.Signature.Recv() != nil && namedIs(f.Signature.Recv().Type(), "github.com/hashicorp/raft", "Raft")
+				}
+				if isApply(cc) {
+					return true
+				}
+				if f := cc.StaticCallee(); f != nil && p.isHelperOf(rAB, f) {
+					return len(p.RegionOf(f, 2).Calls(isApply)) > 0
+				}
+				return false
 			}
 			return name == "AddBulk"
 		}
@@ -481,6 +493,7 @@ func staticModuleCallees(p *Program, fn *ssa.Function) []*ssa.Function {
 func c11SoleProducer(c *Ctx) {
 	p := c.P
 	var sites []string
+	var siteFns []*ssa.Function
 	for _, fn := range p.ModFuncs {
 		if !p.Production(fn) {
 			continue
@@ -494,21 +507,25 @@ func c11SoleProducer(c *Ctx) {
 			f := cc.StaticCallee()
 			if f != nil && f.Name() == "Apply" && f.Signature.Recv() != nil && namedIs(f.Signature.Recv().Type(), "github.com/hashicorp/raft", "Raft") {
 				sites = append(sites, funcName(fn))
+				siteFns = append(siteFns, fn)
 			}
 		})
 	}
-	propose := p.MustMethod(pkgConsensus, "RaftNode", "propose")
-	ok := len(sites) == 1 && sites[0] == funcName(propose)
-	// propose's callers
-	var callers []string
-	for _, fn := range p.ModFuncs {
-		if p.Production(fn) && len(callsIn(fn, func(k *ssa.CallCommon) bool { return k.StaticCallee() == propose })) > 0 {
-			callers = append(callers, funcName(fn))
-		}
-	}
+	// by role: the single function that hands a command to raft is RaftNode.AddBulk itself or a
+	// helper of the node that only AddBulk calls
 	ab := p.MustMethod(pkgConsensus, "RaftNode", "AddBulk")
-	ok = ok && len(callers) == 1 && callers[0] == funcName(ab)
-	c.Check(ok, "R4", "raft.Apply", propose.Pos(), "sole producer: RaftNode.AddBulk → propose → raft.Apply", fmt.Sprintf("commands are proposed to raft from %v (through propose called by %v); the FSM only knows how to apply what RaftNode.AddBulk encodes", sites, callers))
+	ok := len(siteFns) == 1
+	var callers []string
+	if ok && siteFns[0] != ab {
+		propose := siteFns[0]
+		for _, fn := range p.ModFuncs {
+			if p.Production(fn) && len(callsIn(fn, func(k *ssa.CallCommon) bool { return k.StaticCallee() == propose })) > 0 {
+				callers = append(callers, funcName(fn))
+			}
+		}
+		ok = len(callers) == 1 && callers[0] == funcName(ab)
+	}
+	c.Check(ok, "R4", "raft.Apply", ab.Pos(), "sole producer: RaftNode.AddBulk (→ helper) → raft.Apply", fmt.Sprintf("commands are proposed to raft from %v (called by %v); the FSM only knows how to apply what RaftNode.AddBulk encodes", sites, callers))
 }
 
 // hyperLeafListDiscipline: outside the list type's own methods a leaf is added to a leavesList only by the sorted, de-duplicating inserter.
